@@ -86,7 +86,7 @@ func ProbeMain(args []string) int {
 // program to <outdir>/<module>.hms.
 func GenMain(args []string) int {
 	if len(args) < 3 {
-		fmt.Fprintln(os.Stderr, "usage: gen <family> <seed> <outdir> [xmod|cap|cast|singl|mangle ...]")
+		fmt.Fprintln(os.Stderr, "usage: gen <family> <seed> <outdir> [xmod|cap|cast|singl|mangle|capture|jsonmixed ...]")
 		return 2
 	}
 	seed, _ := strconv.ParseUint(args[1], 10, 64)
@@ -105,6 +105,8 @@ func GenMain(args []string) int {
 			p.Mangle = true
 		case "capture":
 			p.Capture = true
+		case "jsonmixed":
+			p.JsonMixed = true
 		}
 	}
 	f, ok := Families[args[0]]
